@@ -191,7 +191,7 @@ fn run() {
                             .0
                             .values()
                             .position(|s| {
-                                s.instrument.name_internal.name().as_str() == format!("0_b{i}_usdt")
+                                s.instrument.name_internal.name().as_str() == format!("b{i}_usdt_x0")
                             })
                             .unwrap()
                     })
